@@ -41,7 +41,8 @@ theorem no_step_after_end (s : St) (hr : Reach s) (r : Res) (he : s.phase = .end
   have hnr : s.pay p ≠ .running := by
     intro h; simp [St.coBusy, h] at hb
   refine ⟨fun t => ?_, fun o => ?_, ?_⟩
-  · simp [step, he]
+  · have hnt : s.fl p ≠ .thr := by intro h; rw [h] at hco; simp [Flav.isCo] at hco
+    simp [step, he, hnt]
   · simp [step, hnr]
   · simp [step, hnr]
 
